@@ -529,7 +529,8 @@ class ContractRun:
         self.exits = []
 
 
-def run_symbolic(contract, cfg, modules, seed=0, pool_size=6, max_paths=64, budget_ms=4000, time_cap_s=240):
+def run_symbolic(contract, cfg, modules, seed=0, pool_size=6, max_paths=64, budget_ms=4000, time_cap_s=240,
+                 check_div=True):
     """returns ContractRun"""
     name = getattr(contract, 'cname', contract.__name__) + _cfgtag(cfg)
     run = ContractRun(name)
@@ -590,7 +591,7 @@ def run_symbolic(contract, cfg, modules, seed=0, pool_size=6, max_paths=64, budg
             r.update(name=f'{name}:{o.name}' + (f'@p{pi}' if len(per_path) > 1 else ''),
                      canary=o.canary, path=pi, kind=o.kind)
             run.results.append(r)
-    run.div = check_divisions(ctrl.div_seen, assume, pool)
+    run.div = check_divisions(ctrl.div_seen, assume, pool) if check_div else []
     run.stats = dict(ctrl.stats, oracle=oracle.stats, seconds=round(time.time() - t0, 3),
                      nodes=len(core.CTX.nodes), atoms=len(core.CTX.atoms))
     return run, S, pool
